@@ -41,5 +41,19 @@ IvRule == mphase = "grow" => \A bad \in {<<>>, <<1>>, <<1,2,3>>} :
 BadInc(c) == [c EXCEPT ![TB] = (c[TB] + 1) % TSYM]
 CtrLaw == \A c \in (0..3) \X (0..3) : Num(IF BADCTR THEN BadInc(c) ELSE M!CtrNext(c)) = (Num(c) + 1) % 16
 ASSUME BADCTR \/ CtrLaw
-Inv == RoundTrip /\ DecTotal /\ IvRule /\ CtrLaw
+\* the LOCAL form (used by the trace specification for large inputs) accepts exactly the recursive result: for the right output, for every single-symbol
+\* alteration of it, for a wrong length, and -- up to 3 symbols -- for EVERY candidate string; both directions (mdata read as plaintext and as ciphertext)
+Alter(o, pos, v) == [o EXCEPT ![pos] = v]
+Cands(o) == {o} \cup {Alter(o, pos, v) : pos \in 1..Len(o), v \in 0..3} \cup {o \o <<0>>} \cup (IF Len(o) > 0 THEN {SubSeq(o, 1, Len(o) - 1)} ELSE {})
+                \cup (IF Len(o) <= 3 THEN UNION {[1..n -> 0..3] : n \in 0..3} ELSE {})
+EncLocalAgrees2(ct) == \A o \in Cands(ct) : M!EncLocalOK(mmode, mkey, miv, mdata, "ok", o) = (o = ct)
+EncLocalAgrees == mphase = "grow" => EncLocalAgrees2(M!ModeEnc(mmode, mkey, miv, mdata)) /\ ~M!EncLocalOK(mmode, mkey, miv, mdata, "err", <<>>)
+DecLocalAgrees2(x) == IF x[1] = "err" THEN M!DecLocalOK(mmode, mkey, miv, mdata, "err", <<>>) /\ ~M!DecLocalOK(mmode, mkey, miv, mdata, "ok", <<>>)
+                      ELSE (\A o \in Cands(x[2]) : M!DecLocalOK(mmode, mkey, miv, mdata, "ok", o) = (o = x[2])) /\ ~M!DecLocalOK(mmode, mkey, miv, mdata, "err", <<>>)
+DecLocalAgrees == mphase = "grow" => DecLocalAgrees2(M!DecOutcome(mmode, mkey, miv, mdata))
+LocalIvRule == mphase = "grow" => \A bad \in {<<>>, <<1>>, <<1,2,3>>} : M!EncLocalOK(mmode, mkey, bad, mdata, "err", <<>>) /\ ~M!EncLocalOK(mmode, mkey, bad, mdata, "ok", mdata)
+                                                                    /\ M!DecLocalOK(mmode, mkey, bad, mdata, "err", <<>>)
+AddCtrLaw == \A c \in (0..3) \X (0..3), i \in 0..40 : Num(M!AddCtr(c, i)) = (Num(c) + i) % 16
+ASSUME AddCtrLaw
+Inv == RoundTrip /\ DecTotal /\ IvRule /\ CtrLaw /\ EncLocalAgrees /\ DecLocalAgrees /\ LocalIvRule
 =============================================================================
